@@ -41,12 +41,18 @@ def trace(body, op, limit=40):
             return steps, ("arg", l, ptxt)
         if any(p["k"] not in ("deref", "field") for p in proj):
             return steps, ("unknown", "projection " + ptxt)
-        if any(p["k"] == "field" for p in proj):
-            steps.append(("proj", ptxt))
         ds = defs.get(l, [])
         if len(ds) != 1:
             return steps, ("unknown", "local _%d has %d definitions" % (l, len(ds)))
         kind, d = ds[0]
+        fields = [p for p in proj if p["k"] == "field"]
+        if fields:
+            # a field of a locally built aggregate (tuple / struct literal): follow that operand
+            if kind == "stmt" and d["rv"]["k"] == "aggregate" and len(fields) == 1 and proj[0]["k"] == "field" \
+                    and fields[0].get("i") is not None and fields[0]["i"] < len(d["rv"]["ops"]):
+                cur = d["rv"]["ops"][fields[0]["i"]]
+                continue
+            steps.append(("proj", ptxt))
         if kind == "call":
             path = callee_path(d)
             if not d["args"]:
